@@ -97,13 +97,16 @@ def _work(chunk):
             pred = A.is_predicate(e)
             ref_vals.append([A.ref_eval(e, r) for r in ROWS])
             try:
-                lib = A.to_lib(e)
+                # fresh library objects that die after use, converted by one long-lived engine per worker:
+                # an engine-side cache keyed on object identity would hand back a stale conversion
+                lib = A._to_lib(e)
                 fn = ie.convert_predicate(lib) if pred else ie.convert_column_expression(lib)
                 it_vals.append([fn(r) for r in lib_rows])
+                del lib, fn
             except Exception as ex:  # noqa: BLE001
                 it_vals.append(ex)
             try:
-                lib = A.to_lib(e)
+                lib = A._to_lib(e)
                 sql_cols.append(se.convert_predicate(lib, cols) if pred else se.convert_column_expression(lib, cols))
             except Exception as ex:  # noqa: BLE001
                 sql_cols.append(ex)
